@@ -2,6 +2,7 @@
 //  * TSnap / ORec : per-object records keyed by gp_index, for before/after relations (C08, C13-C15)
 //  * dump_topology(): canonical text, for equality oracles (C02 "unchanged", C05, C12, C16, C19); first differing line is the message
 #pragma once
+#include "engine.h"
 #include "wf.hpp"
 #include <hwloc.h>
 #include <algorithm>
@@ -48,12 +49,12 @@ static void dump_obj(std::ostringstream &o, hwloc_obj_t x, int indent, unsigned 
     case HWLOC_OBJ_NUMANODE: o << " localmem=" << x->attr->numanode.local_memory << " pagetypes=" << x->attr->numanode.page_types_len;
       for (unsigned i = 0; i < x->attr->numanode.page_types_len; i++) o << "(" << x->attr->numanode.page_types[i].size << "x" << x->attr->numanode.page_types[i].count << ")"; break;
     case HWLOC_OBJ_L1CACHE: case HWLOC_OBJ_L2CACHE: case HWLOC_OBJ_L3CACHE: case HWLOC_OBJ_L4CACHE: case HWLOC_OBJ_L5CACHE: case HWLOC_OBJ_L1ICACHE: case HWLOC_OBJ_L2ICACHE: case HWLOC_OBJ_L3ICACHE: case HWLOC_OBJ_MEMCACHE:
-      o << " cache(size=" << x->attr->cache.size << ",depth=" << x->attr->cache.depth << ",line=" << x->attr->cache.linesize << ",assoc=" << x->attr->cache.associativity << ",type=" << x->attr->cache.type << ")"; break;
+      o << " cache(size=" << x->attr->cache.size << ",depth=" << x->attr->cache.depth << ",line=" << x->attr->cache.linesize << ",assoc=" << x->attr->cache.associativity << ",type=" << enum_int(&x->attr->cache.type) << ")"; break;
     case HWLOC_OBJ_GROUP: o << " group(depth=" << x->attr->group.depth << ",kind=" << x->attr->group.kind << ",subkind=" << x->attr->group.subkind << ",dont_merge=" << (int)x->attr->group.dont_merge << ")"; break;
     case HWLOC_OBJ_PCI_DEVICE: o << " pci(" << x->attr->pcidev.domain << ":" << (int)x->attr->pcidev.bus << ":" << (int)x->attr->pcidev.dev << "." << (int)x->attr->pcidev.func << " class=" << x->attr->pcidev.class_id << " ids=" << x->attr->pcidev.vendor_id << ":" << x->attr->pcidev.device_id << ":" << x->attr->pcidev.subvendor_id << ":" << x->attr->pcidev.subdevice_id << " rev=" << (int)x->attr->pcidev.revision << " link=" << fstr(x->attr->pcidev.linkspeed) << ")"; break;
-    case HWLOC_OBJ_BRIDGE: o << " bridge(up=" << x->attr->bridge.upstream_type << ",down=" << x->attr->bridge.downstream_type << ",depth=" << x->attr->bridge.depth;
-      if (x->attr->bridge.upstream_type == HWLOC_OBJ_BRIDGE_PCI) o << ",uppci=" << x->attr->bridge.upstream.pci.domain << ":" << (int)x->attr->bridge.upstream.pci.bus << ":" << (int)x->attr->bridge.upstream.pci.dev << "." << (int)x->attr->bridge.upstream.pci.func << " link=" << fstr(x->attr->bridge.upstream.pci.linkspeed);
-      if (x->attr->bridge.downstream_type == HWLOC_OBJ_BRIDGE_PCI) o << ",down=" << x->attr->bridge.downstream.pci.domain << ":" << (int)x->attr->bridge.downstream.pci.secondary_bus << "-" << (int)x->attr->bridge.downstream.pci.subordinate_bus;
+    case HWLOC_OBJ_BRIDGE: o << " bridge(up=" << enum_int(&x->attr->bridge.upstream_type) << ",down=" << enum_int(&x->attr->bridge.downstream_type) << ",depth=" << x->attr->bridge.depth;
+      if (enum_int(&x->attr->bridge.upstream_type) == HWLOC_OBJ_BRIDGE_PCI) o << ",uppci=" << x->attr->bridge.upstream.pci.domain << ":" << (int)x->attr->bridge.upstream.pci.bus << ":" << (int)x->attr->bridge.upstream.pci.dev << "." << (int)x->attr->bridge.upstream.pci.func << " link=" << fstr(x->attr->bridge.upstream.pci.linkspeed);
+      if (enum_int(&x->attr->bridge.downstream_type) == HWLOC_OBJ_BRIDGE_PCI) o << ",down=" << x->attr->bridge.downstream.pci.domain << ":" << (int)x->attr->bridge.downstream.pci.secondary_bus << "-" << (int)x->attr->bridge.downstream.pci.subordinate_bus;
       o << ")"; break;
     case HWLOC_OBJ_OS_DEVICE: o << " osdev(types=" << x->attr->osdev.types << ")"; break;
     default: break;
